@@ -1,6 +1,7 @@
 \* binding = as-built (every DEV_ TRUE: what the code does today)
 CONSTANTS
   DEV_CredUpsertShadowedErr = TRUE
+  DEV_PgCredUpsertShadowedErr = TRUE
   DEV_UsersCreateCompensates = TRUE
   DEV_TopicsCreateTwoTx = TRUE
   DEV_DeleteListThreeTx = TRUE
